@@ -37,6 +37,7 @@ def check(prog, rep, tier):
     count = ("f", NEWEST, "_els_added", 0)
     est = ("f", NEWEST, "_est_elements", 0)
     own_est = ("f", SELF, "_ExpandingBloomFilter__est_elements", 0)
+    est_aliases = planned_size_aliases(prog, rep)
     qlen = ("call", ("g", "len"), (BLOOMS,), ())
     qmax = ("f", SELF, "_queue_size", 0)
     good = shape_ok
@@ -51,6 +52,8 @@ def check(prog, rep, tier):
         where = f"{CTX}.{entry}"
         conds = [strip_epochs(c) for c in (conds_at(p, ins) if ins is not None else all_conds(p))]
         ready = (path_orderings(conds, count, est) & path_orderings(conds, count, own_est)) & {LT, EQ}
+        for alias in est_aliases:
+            ready &= path_orderings(conds, count, alias)  # a comparison with a proved copy of the planned size
         room = path_orderings(conds, qlen, qmax) & {LT, EQ}
         ops = [o[0] for o in evs]
         loc = evs[0][1].where() if evs else fn.where()
@@ -150,6 +153,54 @@ def check(prog, rep, tier):
     else:
         rep.bad("C10.limit-fixed", CTX, f"writers {sorted(writers)}", f"max_queue_size is written by {sorted(writers)}", prog.cls(CTX).module.relpath + ":1")
     restore_keeps_queue(prog, rep)
+
+
+def planned_size_aliases(prog, rep):
+    """fields of the rotating filter that hold the planned size (est_elements) for the whole life of the object - a comparison with one of
+    them is a comparison with est_elements.  A field D qualifies when
+      (1) the planned-size field itself is written only during construction: by `__init__`, or by a name-mangled private method whose
+          every call site in its class is in `__init__` or in itself (the loader) - and the mangled spelling occurs nowhere else;
+      (2) D is written only by `__init__` (any class of the hierarchy);
+      (3) on every returning path of the constructor (base constructors and loaders inlined) D ends up with exactly the value the
+          planned-size field ends up with (arguments, the default, or the value unpacked from the file alike)."""
+    import ast as _ast
+    from ..common import mro_methods
+    EST = "_ExpandingBloomFilter__est_elements"
+    writers = {}
+    for f in mro_methods(prog, CTX):
+        for p in paths(prog, CTX, f):
+            for e in p.events:
+                if e.kind == "setfield" and e.base == SELF:
+                    writers.setdefault(e.name, {})[f.qualname] = f
+
+    def construction_only(f):
+        if f.src_name == "__init__":
+            return True
+        if not (f.src_name.startswith("__") and not f.src_name.endswith("__")) or f.cls is None:
+            return False
+        callers = set()
+        for g in f.cls.methods.values():
+            for n in _ast.walk(g.node):
+                if isinstance(n, _ast.Attribute) and n.attr == f.src_name:
+                    callers.add(g.src_name)
+        mangled = f"_{f.cls.name.lstrip('_')}{f.src_name}"
+        spelled = any(isinstance(n, _ast.Attribute) and n.attr == mangled or isinstance(n, _ast.Constant) and n.value == mangled
+                      for k_ in prog.classes.values() for g in k_.methods.values() for n in _ast.walk(g.node))
+        return bool(callers) and callers <= {"__init__", f.src_name} and not spelled
+
+    if EST not in writers or not all(construction_only(f) for f in writers[EST].values()):
+        return []
+    init = prog.cls(CTX).find_method("__init__")
+    ps = [p for p in paths(prog, CTX, init, inline="deep") if p.exit[0] == "return"]
+    out = []
+    for d, ws in sorted(writers.items()):
+        if d == EST or {f.src_name for f in ws.values()} != {"__init__"} or not ps:
+            continue
+        vals = [(p.fields.get((SELF, d)), p.fields.get((SELF, EST))) for p in ps]
+        if all(a is not None and b is not None and strip_epochs(a) == strip_epochs(b) for a, b in vals):
+            out.append(("f", SELF, d, 0))
+            rep.ok("C10.rotation-table", f"{CTX}: field {d} holds the planned size on all {len(ps)} constructor paths and neither is written afterwards")
+    return out
 
 
 def restore_keeps_queue(prog, rep):
